@@ -274,7 +274,7 @@ func C05() *engine.Scenario {
 		Stub:  []string{"clients (history generator)", "iterator task (re-entrant renamer)", "list-of-pairs reference model", "encoding/json + yaml.v3 used only to decode the map's own output"},
 		Assume: []string{"Set/Replace on a nil *Map are outside the property (no non-panicking meaning); Delete from inside a callback is not generated (not in the property)",
 			"no external fault exists for an in-memory map: fault_kinds is empty by construction"},
-		Runs:       map[string]int{"quick": 120000, "thorough": 4000000},
+		Runs:       map[string]int{"quick": 60000, "thorough": 4000000},
 		TimeoutSec: 120,
 		Run:        runC05,
 	}
